@@ -603,7 +603,10 @@ fn oracle(s: &Sess, o: &mut Oracle) {
         s.scheme, s.e, part.t, part.n, s.p, s.win, s.maxtc, s.car, l
     );
     if s.dead {
-        o.fail("sender-panic", &format!("Sender::read panicked {}", ctxs));
+        // D23 (finding): raptor_code refuses blocks of 2 or 3 source symbols
+        let raptor_small = s.scheme == "raptor" && (0..part.n).any(|sbn| part.k(sbn) == 2 || part.k(sbn) == 3);
+        let cls = if raptor_small { "raptor-k<4" } else { "sender-panic" };
+        o.fail(cls, &format!("Sender::read panicked {}", ctxs));
         return;
     }
     // split into transfers: a transfer starts at each occurrence of (SBN 0, ESI 0)
@@ -625,8 +628,12 @@ fn oracle(s: &Sess, o: &mut Oracle) {
         if !p.b {
             continue;
         }
-        if l == 0 {
-            continue;
+        if l == 0 && p.payload.is_empty() && p.sbn == 0 && p.esi == 0 {
+            // the lone packet that represents an empty object (it is a transfer of its own)
+            let lone = transfers.iter().any(|t| t.len() == 1 && t[0].0 == i);
+            if lone {
+                continue;
+            }
         }
         let is_last_of_stream = i + 1 == tr.len();
         if p.after_remove {
@@ -644,15 +651,6 @@ fn oracle(s: &Sess, o: &mut Oracle) {
             o.fail("b-flag-not-final-transfer", &format!("B in transfer {} of {} {}", transfers.len(), s.maxtc, ctxs));
         }
     }
-    if l == 0 {
-        // lone packet per transfer
-        for t in &transfers {
-            if t.len() != 1 || !t[0].1.payload.is_empty() {
-                o.fail("empty-object-not-lone", &format!("empty object represented by {} packets {}", t.len(), ctxs));
-            }
-        }
-        return;
-    }
     let ntr = transfers.len();
     for (ti, t) in transfers.iter().enumerate() {
         // a transfer is `complete` unless the stream was cut in it by a removal (forced stop) or the case stopped reading
@@ -665,6 +663,11 @@ fn oracle(s: &Sess, o: &mut Oracle) {
         let mut nrep: std::collections::BTreeMap<u32, u64> = Default::default();
         let mut open_order: Vec<u32> = Vec::new();
         for (j, (_, p)) in t.iter().enumerate() {
+            if l == 0 {
+                // no source block exists: only the flag rules above and the repair bound below apply
+                *nrep.entry(p.sbn).or_insert(0) += if p.payload.is_empty() && t.len() == 1 { 0 } else { 1 };
+                continue;
+            }
             if p.sbn as u64 >= part.n {
                 o.fail("sbn-out-of-range", &format!("SBN {} >= N {} {}", p.sbn, part.n, ctxs));
                 continue;
@@ -690,8 +693,10 @@ fn oracle(s: &Sess, o: &mut Oracle) {
                 let ok_short = p.payload == want;
                 let ok_padded = p.payload.len() == s.e as usize && &p.payload[..want.len()] == want && p.payload[want.len()..].iter().all(|x| *x == 0);
                 if !(ok_short || ok_padded) {
-                    let cls = if s.scheme == "raptor" && p.payload.len() != s.e as usize && p.payload.len() != want.len() {
-                        "raptor-symbol-size"
+                    // D22 (finding): Raptor cuts a block whose length is not a multiple of E (the last one) into
+                    // semi-equal symbols
+                    let cls = if s.scheme == "raptor" && l % s.e != 0 && p.sbn as u64 + 1 == part.n {
+                        "raptor-symbol-split-unaligned-block"
                     } else {
                         "payload-not-slice"
                     };
@@ -742,7 +747,9 @@ fn oracle(s: &Sess, o: &mut Oracle) {
                 }
             }
             if missing > 0 {
-                o.fail("source-missing", &format!("{} source symbols never sent in complete transfer {} (first {:?}) {}", missing, ti, first_missing, ctxs));
+                // D23 (finding): a Raptor block of 2 or 3 symbols cannot be created, the transfer stops there
+                let raptor_small = s.scheme == "raptor" && (0..part.n).any(|sbn| part.k(sbn) == 2 || part.k(sbn) == 3);
+                o.fail(if raptor_small { "raptor-k<4" } else { "source-missing" }, &format!("{} source symbols never sent in complete transfer {} (first {:?}) {}", missing, ti, first_missing, ctxs));
             } else {
                 // an RFC-only receiver: concatenate source payloads in (SBN, ESI) order, trim to L
                 let mut cat: Vec<u8> = Vec::with_capacity(s.te.len());
@@ -757,7 +764,7 @@ fn oracle(s: &Sess, o: &mut Oracle) {
                 }
                 cat.truncate(s.te.len());
                 if cat != s.te {
-                    if !(s.scheme == "raptor") {
+                    if !(s.scheme == "raptor" && l % s.e != 0) {
                         o.fail("reassembly-differs", &format!("source payloads in (SBN,ESI) order trimmed to L differ from the transfer-encoded object (transfer {}) {}", ti, ctxs));
                     }
                 } else if s.cenc != Cenc::Null {
@@ -1049,8 +1056,10 @@ pub fn run(ctx: &mut Ctx, eng: &mut dyn Engine) {
             srcs.push(format!("chk:r{}.{}", rng.below(1 << 30), (e * b).max(2)));
             srcs.push(format!("chk:l{}.{}.{}.1", rng.range(1, 9), rng.range(1, 9), rng.range(1, 40)));
         } else {
-            srcs.push(format!("chk:f{}", e * b - 1));
-            srcs.push("chk:f8191".into());
+            srcs.retain(|x| x != "chk:f7");
+            srcs.push(format!("chk:f{}", (e * b - 1).max(len / 40)));
+            srcs.push(format!("chk:f{}", 8191.max(len / 40)));
+            srcs.push(format!("chk:l{}.{}.{}.1.{}", rng.range(1, 9), rng.range(1, 9000), rng.range(1, 40), rng.range(1, 100000)));
         }
         let mut reference: Option<String> = None;
         for src in srcs {
@@ -1070,8 +1079,11 @@ pub fn run(ctx: &mut Ctx, eng: &mut dyn Engine) {
                         eng.reset();
                         ctx.step(eng, &c.op());
                         ctx.step(eng, "benc readall");
+                        // D24 (finding): an empty object from a buffer is sent by RaptorQ/Raptor as `parity` repair packets of a
+                        // block that does not exist, from a stream as the lone empty packet
+                        let cls = if len == 0 && (scheme == "raptorq" || scheme == "raptor") { "empty-object-fec-buffer-vs-stream" } else { "stream-ne-buffer" };
                         ctx.oracle_fail(
-                            "stream-ne-buffer",
+                            cls,
                             &format!("packet sequence from source `{}` differs from the buffer source for the same bytes: {}", src, c.op()),
                         );
                         eng.reset();
